@@ -1,3 +1,4 @@
+mod c01;
 mod c02;
 mod c05;
 mod common;
@@ -15,7 +16,9 @@ fn main() -> anyhow::Result<()> {
     let out = std::path::PathBuf::from(&args[4]);
     let thorough = args.get(5).map(|s| s == "thorough").unwrap_or(false);
     match prop {
+        "C01" => c01::run(seed, n, &out, thorough, "C01", "Check.C01"),
         "C02" => c02::run(seed, n, &out, thorough),
+        "C08" => c01::run(seed, n, &out, thorough, "C08", "Check.C08"),
         "C05" => c05::run(seed, n, &out, thorough),
         _ => anyhow::bail!("unknown property {prop}"),
     }
